@@ -66,22 +66,8 @@ UnwrapR(s, out) ==
           ELSE [v |-> Val(LowerTag(s.g), 0, [i \in 1..Len(s.xs) |-> rs[i].v]), u |-> 0, bad |-> FALSE]
 
 (* ---------------- static structures (program text) ------------------------------------------- *)
-(* Resolve a static structure the way the harness builds it: leaves are numbered left to right,
-   T(u) names task u, every other future leaf gets Fid(t,k,pos). *)
-RECURSIVE Res(_, _, _, _)
-Res(t, k, s, p) ==
-  IF IsContainer(s) THEN
-     LET RECURSIVE Go(_, _, _)
-         Go(i, acc, pp) == IF i > Len(s.xs) THEN [s |-> Val(s.g, 0, acc), p |-> pp]
-                           ELSE LET r == Res(t, k, s.xs[i], pp) IN Go(i + 1, Append(acc, r.s), r.p)
-     IN Go(1, <<>>, p)
-  ELSE IF s.g = "N"   THEN [s |-> Val("N", 0, <<>>), p |-> p + 1]
-  ELSE IF s.g = "Bad" THEN [s |-> Val("Bad", 0, <<>>), p |-> p + 1]
-  ELSE IF s.g \in {"T", "D"} THEN [s |-> Val("F", s.n, <<>>), p |-> p + 1]
-  ELSE [s |-> Val("F", Fid(t, k, p + 1), <<>>), p |-> p + 1]
-Resolve(t, k, s) == Res(t, k, s, 0).s
-
-(* static leaves with their positions: sequence of [g, n, f] in structure order *)
+(* static leaves with their positions: sequence of [g, n, f] in structure order.  A leaf Rep(j) is the very same
+   object as leaf j of the structure (written twice); it stands for that leaf everywhere *)
 RECURSIVE SLeaves(_, _, _, _)
 SLeaves(t, k, s, p) ==
   IF IsContainer(s) THEN
@@ -90,7 +76,13 @@ SLeaves(t, k, s, p) ==
                            ELSE LET r == SLeaves(t, k, s.xs[i], pp) IN Go(i + 1, acc \o r.l, r.p)
      IN Go(1, <<>>, p)
   ELSE [l |-> <<[g |-> IF s.g = "D" THEN "T" ELSE s.g, n |-> s.n, f |-> IF s.g \in {"T", "D"} THEN s.n ELSE Fid(t, k, p + 1)]>>, p |-> p + 1]
-StaticLeaves(t, k, s) == SLeaves(t, k, s, 0).l
+StaticLeaves(t, k, s) == LET raw == SLeaves(t, k, s, 0).l IN [i \in 1..Len(raw) |-> IF raw[i].g = "Rep" THEN raw[raw[i].n] ELSE raw[i]]
+
+(* the structure yielded at segment k of task t: `reuse` = k0 > 0 means the very object yielded at segment k0 is yielded again *)
+TermSeg(P, t, k) == LET r == P.tasks[t].segs[k].term.reuse IN IF r # 0 THEN r ELSE k
+TermStruct(P, t, k) == P.tasks[t].segs[TermSeg(P, t, k)].term.s
+TermLeaves(P, t, k) == StaticLeaves(t, TermSeg(P, t, k), TermStruct(P, t, k))
+IsReuse(P, t, k) == P.tasks[t].segs[k].term.reuse # 0
 
 ItemOut(mode, kind, f) ==       \* what a flush of that kind does to item f (a function of the item only)
   LET odd == (f % 2) = 1 IN
@@ -111,20 +103,21 @@ LeafOutStatic(P, g, n, f, TO(_)) ==
 
 (* ---------------- reference semantics: sequential depth-first evaluation ---------------------- *)
 RECURSIVE TaskOut(_, _)
-RECURSIVE SOut(_, _, _, _, _)
-SOut(P, t, k, s, p) ==      \* [v |-> value or first failure in structure order, p |-> last leaf position used]
+RECURSIVE SOutT(_, _, _, _)
+SOutT(P, s, p, tab) ==      \* [v |-> value or first failure in structure order, p |-> last leaf position used]
   IF IsContainer(s) THEN
      LET RECURSIVE Go(_, _, _)
          Go(i, acc, pp) == IF i > Len(s.xs) THEN [vs |-> acc, p |-> pp]
-                           ELSE LET r == SOut(P, t, k, s.xs[i], pp) IN Go(i + 1, Append(acc, r.v), r.p)
+                           ELSE LET r == SOutT(P, s.xs[i], pp, tab) IN Go(i + 1, Append(acc, r.v), r.p)
          r == Go(1, <<>>, p)
          fails == {i \in 1..Len(r.vs) : IsX(r.vs[i])}
      IN [v |-> IF fails # {} THEN r.vs[CHOOSE i \in fails : \A j \in fails : i <= j]
                ELSE Val(LowerTag(s.g), 0, r.vs),
          p |-> r.p]
-  ELSE LET f == IF s.g \in {"T", "D"} THEN s.n ELSE Fid(t, k, p + 1)
+  ELSE LET e == tab[p + 1]
            TO(u) == TaskOut(P, u)
-       IN [v |-> LeafOutStatic(P, s.g, s.n, f, TO), p |-> p + 1]
+       IN [v |-> LeafOutStatic(P, e.g, e.n, e.f, TO), p |-> p + 1]
+SOut(P, t, k) == SOutT(P, TermStruct(P, t, k), 0, TermLeaves(P, t, k))     \* what the yield at segment k of t evaluates to
 
 TaskOut(P, t) ==            \* the value task t returns, or VX(id) of the exception it fails with
   LET segs == P.tasks[t].segs
@@ -145,7 +138,7 @@ TaskOut(P, t) ==            \* the value task t returns, or VX(id) of the except
             o == Ops(1, recvs)
         IN IF ~o.ok THEN o.x
            ELSE CASE seg.term.k = "yield" ->
-                       LET r == SOut(P, t, k, seg.term.s, 0).v IN
+                       LET r == SOut(P, t, k).v IN
                        IF IsX(r) THEN (IF seg.term.catch /\ ~IsBaseX(r) THEN Go(k + 1, Append(o.rs, Val("caught", r.n, <<>>))) ELSE r)
                        ELSE Go(k + 1, Append(o.rs, r))
                   [] seg.term.k \in {"return", "result"} ->
@@ -198,12 +191,12 @@ Fin(P, t, s) ==
         IF k > Len(segs) THEN cur
         ELSE LET seg == segs[k] IN
              IF seg.term.k # "yield" THEN cur
-             ELSE LET ls == StaticLeaves(t, k, seg.term.s)
+             ELSE LET ls == IF IsReuse(P, t, k) THEN <<>> ELSE StaticLeaves(t, k, seg.term.s)     \* a re-yielded object is complete already
                       times == {cur} \cup {IF ls[i].g = "I" THEN cur + 1
                                            ELSE IF ls[i].g = "T" THEN Fin(P, ls[i].n, cur) ELSE cur : i \in 1..Len(ls)}
                       nxt == CHOOSE m \in times : \A x \in times : x <= m
                       \* an uncaught failure ends the task at this yield (after all siblings finished)
-                      r == SOut(P, t, k, seg.term.s, 0).v
+                      r == SOut(P, t, k).v
                   IN IF IsX(r) /\ ~(seg.term.catch /\ ~IsBaseX(r)) THEN nxt ELSE Go(k + 1, nxt)
   IN Go(1, s)
 CriticalPath(P, root) == Fin(P, root, 0)
